@@ -39,7 +39,10 @@ FIRST_KEY = lambda v: ("filter", "first", ("call", ("attr", ("attr", v, "element
 def check(ctx):
     m = model(ctx.tree)
     ctx.saw(FILE, "TemplateLoader._prepare_ode_content")
-    reaction_sites(ctx, m, "R0", "R0")
+    # R0: the whole chain from the network to the pasted equations of the species rows (C01.R1-R5, R8): initial 0.0, one signed
+    # identical monomial per occurrence, rows bound to IDX_<alias>, no other writer, every statement pasted once and whole
+    from . import c01
+    ctx.absorb(c01.check, "R0", only=lambda o: o.rule in ("R1", "R2", "R3", "R4", "R5", "R8"))
     _r1(ctx)
     _r2(ctx)
     # R4: one ODE variable per species -- the identifier IDX_<alias> is an injective function of the species (rule shared with C09.R6)
